@@ -216,6 +216,87 @@ def _str_concat_suffix(node, var, what):
     raise TranslateError('%s: expected <name> + <string literal>' % what)
 
 
+def _plain_short_write_policy(branch, w):
+    """What the plain branch of _write_chunk does when write(2) stores fewer bytes than it was given.
+
+    Recognised (anything else fails closed): the block is exactly `with open(filename, 'wb'[, buffering]) as f:`
+    followed by `return`, every statement of the with-body is a call `f.write(<expr>)`:
+      * result discarded, buffered file object (default buffering or a buffer size > 1): io.BufferedWriter
+        re-issues the remainder until everything is written or write(2) raises            -> 'retry'
+      * result discarded, raw file object (buffering=0): io.FileIO.write is ONE write(2) whose count is
+        simply returned                                                                    -> 'ignore'
+      * `n = f.write(x)` immediately followed by `if n != len(x): raise OSError(...)` (or `<`)  -> 'check'
+        (only needed, and only accepted, for a raw file)
+    """
+    what = '%s: _write_chunk: plain branch' % NPY
+    if [st for st in branch.body if st is not w and not isinstance(st, ast.Return)]:
+        raise TranslateError('%s has statements besides the with-block and return' % what)
+    if len(w.items) != 1 or not isinstance(w.items[0].optional_vars, ast.Name) or w.items[0].optional_vars.id != 'f':
+        raise TranslateError('%s: `with open(...) as f` expected' % what)
+    call = w.items[0].context_expr
+    if not (isinstance(call, ast.Call) and isinstance(call.func, ast.Name) and call.func.id == 'open'):
+        raise TranslateError('%s: context manager is not a plain open() call' % what)
+    args = list(call.args)
+    kw = {}
+    for k in call.keywords:
+        if k.arg is None or k.arg in kw:
+            raise TranslateError('%s: open() with ** or repeated keywords' % what)
+        kw[k.arg] = k.value
+    for i, nm in enumerate(('file', 'mode', 'buffering')):
+        if i < len(args):
+            if nm in kw:
+                raise TranslateError('%s: open() argument %s given twice' % (what, nm))
+            kw[nm] = args[i]
+    if len(args) > 3 or set(kw) - {'file', 'mode', 'buffering'}:
+        raise TranslateError('%s: unsupported open() arguments %s' % (what, ast.unparse(call)))
+    if not (isinstance(kw.get('file'), ast.Name) and kw['file'].id == 'filename'):
+        raise TranslateError('%s: does not open `filename`' % what)
+    if not (isinstance(kw.get('mode'), ast.Constant) and kw['mode'].value in ('wb', 'bw')):
+        raise TranslateError("%s: open() mode is not 'wb'" % what)
+    raw = False
+    if 'buffering' in kw:
+        b = kw['buffering']
+        if isinstance(b, ast.UnaryOp) and isinstance(b.op, ast.USub) and isinstance(b.operand, ast.Constant):
+            val = -b.operand.value if isinstance(b.operand.value, int) else None
+        elif isinstance(b, ast.Constant) and isinstance(b.value, int) and not isinstance(b.value, bool):
+            val = b.value
+        else:
+            val = None
+        if val is None or val == 1:
+            raise TranslateError('%s: open() buffering is not an integer literal other than 1' % what)
+        raw = (val == 0)
+    body = list(w.body)
+    if not body:
+        raise TranslateError('%s: empty with-block' % what)
+    policies = set()
+    i = 0
+    while i < len(body):
+        st = body[i]
+        is_write = lambda c: (isinstance(c, ast.Call) and ast.unparse(c.func) == 'f.write'    # noqa: E731
+                              and len(c.args) == 1 and not c.keywords)
+        if isinstance(st, ast.Expr) and is_write(st.value):
+            policies.add('ignore' if raw else 'retry')
+            i += 1
+            continue
+        if (isinstance(st, ast.Assign) and len(st.targets) == 1 and isinstance(st.targets[0], ast.Name)
+                and is_write(st.value) and i + 1 < len(body)):
+            n, x, nxt = st.targets[0].id, ast.unparse(st.value.args[0]), body[i + 1]
+            tests = ('%s != len(%s)' % (n, x), '%s < len(%s)' % (n, x), 'len(%s) != %s' % (x, n), 'len(%s) > %s' % (x, n))
+            if (isinstance(nxt, ast.If) and not nxt.orelse and ast.unparse(nxt.test) in tests and len(nxt.body) == 1
+                    and isinstance(nxt.body[0], ast.Raise) and isinstance(nxt.body[0].exc, ast.Call)
+                    and ast.unparse(nxt.body[0].exc.func) in ('OSError', 'IOError')
+                    and isinstance(st.value.args[0], ast.Name)):
+                # len() of a 1-D uint8 view / bytes equals the byte count only then; be strict about the operand
+                policies.add('check' if raw else 'retry')
+                i += 2
+                continue
+        raise TranslateError('%s: statement not recognised: %s' % (what, ast.unparse(st)[:70]))
+    if len(policies) != 1:
+        raise TranslateError('%s: writes with different short-write handling %s' % (what, sorted(policies)))
+    return policies.pop()
+
+
+
 def item_c08_npy_protocol(repo, out):
     """Temp-file protocol of NpyFileChunkStore.put_chunk and the file name get_chunk reads."""
     tree = _parse(repo, NPY)
@@ -265,16 +346,19 @@ def item_c08_npy_protocol(repo, out):
     pcalls = [ast.unparse(n.func) for st in plain[0].body for n in ast.walk(st) if isinstance(n, ast.Call)]
     if 'np.save' in pcalls:
         writer = 'np.save'
+        short = 'retry'         # C stdio: fwrite loops over short write(2) counts
     elif 'open' in pcalls and 'f.write' in pcalls and not [c for c in pcalls if c.endswith('tofile')]:
         withs = [st for st in plain[0].body if isinstance(st, ast.With)]
         if not (len(withs) == 1 and ast.unparse(withs[0].items[0].context_expr).startswith('open(filename')):
             raise TranslateError('%s: _write_chunk: plain branch does not write inside `with open(filename, ...)`' % NPY)
         writer = 'file.write'
+        short = _plain_short_write_policy(plain[0], withs[0])
     else:
         raise TranslateError('%s: _write_chunk: plain branch writer not recognised (%s)' % (NPY, pcalls))
     if not isinstance(plain[0].body[-1], ast.Return):
         raise TranslateError('%s: _write_chunk: plain branch falls through into the direct branch' % NPY)
     out.append('Definition c08_plain_writer : string := %s.' % coq_string(writer))
+    out.append('Definition c08_plain_short_write : string := %s.' % coq_string(short))
     direct = wc.body[wc.body.index(plain[0]) + 1:]
     dcalls = [ast.unparse(n.func) for st in direct for n in ast.walk(st) if isinstance(n, ast.Call)]
     seq = [c for c in dcalls if c in ('os.open', 'os.write', 'os.ftruncate', 'os.rename', 'os.unlink')]
